@@ -89,6 +89,35 @@ def run(ctx):
             raise AnalysisError(f"{f}: no store to self.{p} found (anchor vanished)")
         for s_ in stores_all:
             res.check(not_supplied_at(s_), "E-FIXED", f, norm(s_), p + ":store", f"self.{p} is assigned on a path where it may have been supplied: a `{p}` supplied at construction is changed by fit()", loc(fi, s_))
+    # ---- every other constructor parameter (max_hye_size, K, ...): fit() may fill it in only when it was left at None
+    with res.guard("E-FIXED for the other constructor parameters"):
+        init = ctx.require("HyMMSBM.__init__")
+        ctor = {a.arg for a in init.params[1:]} | {a.arg for a in init.node.args.kwonlyargs}
+        supplied = set()
+        for n in walk_no_nested(init.node):
+            if isinstance(n, ast.Assign) and len(n.targets) == 1 and is_self_attr(n.targets[0]) and any(isinstance(x, ast.Name) and x.id in ctor for x in ast.walk(n.value)):
+                supplied.add(n.targets[0].attr)
+        for p in sorted(supplied - set(PARAMS)):
+            stores = [x for x in walk_no_nested(fi.node) if isinstance(x, (ast.Assign, ast.AugAssign)) and any(is_self_attr(t, p) for t in (x.targets if isinstance(x, ast.Assign) else [x.target]))]
+            for s_ in stores:
+                nid = v.cfg_id(s_)
+                ok = False
+                for n in walk_no_nested(fi.node):
+                    if not isinstance(n, ast.If):
+                        continue
+                    tid = v.cfg.by_ast[id(n.test)]
+                    for atom, _ in _atoms(n.test, True):
+                        if isinstance(atom, ast.Compare) and norm(atom) in (f"self.{p} is None", f"self.{p} is not None"):
+                            lab = _implied_branch(n.test, atom, norm(atom).endswith("is None"))
+                            if lab and v.cfg.branch_dominated(tid, lab, nid):
+                                ok = True
+                # `self.p = self.p` style no-ops and stores of the attribute's own value are no change
+                same = isinstance(s_, ast.Assign) and is_self_attr(s_.value, p)
+                # a value chosen earlier between the supplied and the inferred one (`x = self.p if ... else ...`): not decided
+                val = getattr(s_, "value", None)
+                rv = v.inline(val) if val is not None else None
+                undecided = rv is not None and (any(is_self_attr(x, p) for x in ast.walk(rv)) or (isinstance(val, ast.Name) and isinstance(v.resolve(val), ast.Name)))
+                res.add("E-FIXED", f, norm(s_), p + ":store", "ok" if ok or same else ("unknown" if undecided else "violation"), "" if ok or same else f"self.{p} is assigned on a path where it may have been supplied: a `{p}` given at construction is changed by fit()", loc(fi, s_))
     # ---- closure: nobody else stores to self.u / self.w or mutates aliases in place
     with res.guard("closure: nobody else stores to self.u / self.w or mutates aliases in place"):
         clo = [g for g in R.closure(ctx, fi) if g.qualname != fi.qualname and g.name not in ("_init_w", "_init_u", "__init__", "_check_and_infer_param_consistency")]
@@ -106,12 +135,26 @@ def run(ctx):
                     elif isinstance(tg, ast.Name) and any(is_self_attr(val, p) for p in PARAMS):
                         alias.add(tg.id)
             bad = []
+            soft = []
             for n in walk_no_nested(g.node):
                 if isinstance(n, (ast.Assign, ast.AugAssign)):
                     for t in (n.targets if isinstance(n, ast.Assign) else [n.target]):
                         base = t.value if isinstance(t, ast.Subscript) else t
                         if any(is_self_attr(base, p) for p in PARAMS):
-                            bad.append((n, "store to " + norm(base)))
+                            # a helper that is handed the caller's 'was supplied' flags and stores under a test of
+                            # one of its parameters is not decided here (the caller's flag discipline is E-FIXED)
+                            gparams = {a.arg for a in g.params} - {"self"}
+                            nid = gv.cfg_id(n)
+                            conditional = False
+                            for i_ in [x for x in walk_no_nested(g.node) if isinstance(x, ast.If)]:
+                                if {y.id for y in ast.walk(i_.test) if isinstance(y, ast.Name)} & gparams:
+                                    tid = gv.cfg.by_ast.get(id(i_.test))
+                                    if tid is not None and (gv.cfg.branch_dominated(tid, "T", nid) or gv.cfg.branch_dominated(tid, "F", nid)):
+                                        conditional = True
+                            if conditional:
+                                soft.append((n, "store to " + norm(base) + " under a flag parameter of the helper"))
+                            else:
+                                bad.append((n, "store to " + norm(base)))
                         if isinstance(n, ast.AugAssign) and isinstance(t, ast.Name) and t.id in alias:
                             bad.append((n, f"in-place update of `{t.id}`, an alias of the model parameter"))
                         if isinstance(t, ast.Subscript) and isinstance(t.value, ast.Name) and t.value.id in alias:
@@ -139,6 +182,8 @@ def run(ctx):
                     if isinstance(n, ast.Assign) and isinstance(n.targets[0], ast.Subscript) and isinstance(n.targets[0].value, ast.Name) and n.targets[0].value.id in pnames:
                         bad.append((n, f"element store into the parameter `{n.targets[0].value.id}`"))
             names.append(g.short)
+            for n, why in soft:
+                res.unknown("E-NOINPLACE", g.short, norm(n), "closure-of-fit", why + ": whether the flag is the caller's 'was not supplied' flag is not decided", loc(g, n))
             if bad:
                 for n, why in bad:
                     res.violation("E-NOINPLACE", g.short, norm(n), "closure-of-fit", f"{why}: reachable from fit(), so a supplied parameter can be changed", loc(g, n))
